@@ -35,6 +35,11 @@ CLAIMED = {
    note="Error kinds are compared as classes (UnboundedSymbol, TypeMisMatch(Procedure), TypeMisMatch(other), ArgumentMissMatch, DivisionByZero, VectorIndexOutOfBounds, RequiresMutable); message texts are not compared.",
    technique="TLA+ abstract machine + TLC exhaustive fault family with invariant, replay, TLC trace validation",
    ref="DESIGN.md section 5, C08"),
+ "C03": dict(
+   text="Store.tla is an abstract model of mutable state (bindings with identity shared by closures, vector objects with identity, aliases through variables, parameters, lists, vectors of vectors and capturing closures; literals immutable) whose actions are whole operations. MCStore.tla performs every operation of every history up to length 4 on the reference machine and checks the refinement invariant (operation value, contents of every vector variable, alias partition); machines that define on set! or copy a vector bound to a parameter must be rejected. Every history (and TLC -simulate walks of 40 operations) is replayed on the real interpreter with a probe after each step comparing contents and Rc-identity alias classes; random 20-60 step histories with arbitrary surrounding expressions are validated by TLC against MachineTrace.tla incl. alias structure.",
+   note="Trusted: renderer, projection incl. alias ids by Rc pointer identity. Pool: 2 counters, 1 shared pair, 2-3 vector variables, 1 container, 1 capturing closure; history length 4 exhaustive, 40 by simulation, 60 random.",
+   technique="TLA+ abstract store model + refinement to the abstract machine checked by TLC, replay of all histories, TLC trace validation",
+   ref="DESIGN.md section 5, C03"),
 }
 PENDING_REASON = "no check is registered for this property yet: the specification module and binding for it are still being built (see DESIGN.md section 10); nothing is claimed"
 
